@@ -12,76 +12,65 @@ theorem under an explicit decidable side condition. The witnesses are replayed o
 -/
 namespace SamVerif.Opt
 
-/-! ## 1. Constant folding (`evaluate_bin_op`) computes exactly what the target computes -/
+/-! ## 1. Constant folding (`evaluate_bin_op`) computes exactly what the target computes
 
-/-- FULL STATEMENT (false on the unchanged code, dev profile): the compile-time evaluator never
-panics on 32-bit operands. Witness: `MAX + 1` (finding C02-F1). -/
-theorem fold_exact_counterexample :
-    ¬ (∀ (op : Op) (a b : Int), InRange a → InRange b → evalImpl op a b ≠ .panic) := by
-  intro h
-  exact h .add 2147483647 1 (by decide) (by decide) (by decide)
+History: before `fix:` 3b705a0 the evaluator used unchecked `+ - * / % <<`; the full statement was
+false (`fold_exact_counterexample`: `MAX + 1` panicked; `fold_mod_counterexample`: `MIN % -1`
+panicked although the target computes 0) and only `fold_exact_partial`/`fold_total_partial` held.
+The model now follows the fixed code and the full-strength statement is proved. -/
 
-/-- Second witness: `MIN % -1` is `0` on the target (`i32.rem_s`) but the evaluator panics — in
-every build profile. -/
-theorem fold_mod_counterexample :
-    evalImpl .mod (-2147483648) (-1) = .panic ∧ evalTarget .mod (-2147483648) (-1) = some 0 := by
-  decide
-
-/-- Whenever the evaluator produces a value, it is the value the target computes (for *all*
-operands: wrap-around for `+ - *`, truncation for `/ %`, masked shift counts, 0/1 comparisons). -/
-theorem fold_exact_partial (op : Op) (a b v : Int)
+theorem fold_val_exact (op : Op) (a b v : Int)
     (h : evalImpl op a b = .val v) : evalTarget op a b = some v := by
-  cases op <;> simp only [evalImpl, evalTarget, chk] at h ⊢
-  case mul => split at h <;> simp_all [wrap32_of_inRange]
-  case add => split at h <;> simp_all [wrap32_of_inRange]
-  case sub => split at h <;> simp_all [wrap32_of_inRange]
+  cases op <;> simp only [evalImpl, evalTarget] at h ⊢
   case div =>
     split at h
     · simp at h
-    · split at h
-      · simp at h
-      · simp_all
+    · rename_i hc
+      have h1 : ¬ b = 0 := fun e => hc (Or.inl e)
+      have h2 : ¬ (a = -2147483648 ∧ b = -1) := fun e => hc (Or.inr e)
+      simp only [h1, h2, if_false]; simpa using h
   case mod =>
     split at h
     · simp at h
-    · split at h
-      · simp at h
-      · simp_all
-  case shl =>
-    split at h
-    · rename_i hr; rw [emod32_of_range hr]; simpa using h
-    · simp at h
-  case shr =>
-    split at h
-    · rename_i hr; rw [emod32_of_range hr]; simpa using h
-    · simp at h
+    · rename_i hb; simp only [hb, if_false]; simpa using h
   all_goals simpa using h
-example : evalImpl .mul 65536 32767 = .val 2147418112 := by decide
 
-/-- When the evaluator declines (`None`), the statement stays and traps on the target as before. -/
 theorem fold_nofold_traps (op : Op) (a b : Int) (h : evalImpl op a b = .nofold) :
     evalTarget op a b = none := by
-  cases op <;> simp only [evalImpl, evalTarget, chk] at h ⊢
-  case div => split at h <;> simp_all; split at h <;> simp at h
-  case mod => split at h <;> simp_all; split at h <;> simp at h
-  all_goals (first | (split at h <;> simp at h) | simp at h)
+  cases op <;> simp only [evalImpl, evalTarget] at h ⊢
+  case div =>
+    split at h
+    · rename_i hc
+      rcases hc with hc | hc
+      · simp [hc]
+      · by_cases hb : b = 0
+        · simp [hb]
+        · simp [hc]
+    · simp at h
+  case mod =>
+    split at h
+    · rename_i hc; simp [hc]
+    · simp at h
+  all_goals simp at h
+
+theorem fold_never_panics (op : Op) (a b : Int) : evalImpl op a b ≠ .panic := by
+  cases op <;> simp only [evalImpl] <;> (try split) <;> simp
+
+/-- FULL STRENGTH: for every operator and all operands the evaluator either produces exactly the
+value the target computes (wrap-around, truncating division, masked shift counts, 0/1
+comparisons) or declines exactly when the target traps, in which case the statement is kept. -/
+theorem fold_exact (op : Op) (a b : Int) :
+    (∃ v, evalImpl op a b = .val v ∧ evalTarget op a b = some v) ∨
+    (evalImpl op a b = .nofold ∧ evalTarget op a b = none) := by
+  cases h : evalImpl op a b with
+  | val v => exact Or.inl ⟨v, rfl, fold_val_exact op a b v h⟩
+  | nofold => exact Or.inr ⟨rfl, fold_nofold_traps op a b h⟩
+  | panic => exact absurd h (fold_never_panics op a b)
+example : evalImpl .mul 65536 32767 = .val 2147418112 := by decide
+example : evalImpl .add 2147483647 1 = .val (-2147483648) := by decide
+example : evalImpl .mod (-2147483648) (-1) = .val 0 := by decide
+example : evalImpl .div (-2147483648) (-1) = .nofold := by decide
 example : evalImpl .div 7 0 = .nofold := by decide
-
-/-- Side condition under which the compile-time evaluator cannot panic. -/
-def FoldSafe (op : Op) (a b : Int) : Prop :=
-  match op with
-  | .mul => InRange (a * b)
-  | .add => InRange (a + b)
-  | .sub => InRange (a - b)
-  | .div | .mod => ¬ (a = -2147483648 ∧ b = -1)
-  | .shl | .shr => 0 ≤ b ∧ b < 32
-  | _ => True
-
-theorem fold_total_partial (op : Op) (a b : Int) (h : FoldSafe op a b) : evalImpl op a b ≠ .panic := by
-  cases op <;> simp only [evalImpl, chk, FoldSafe] at h ⊢ <;> (try split) <;> simp_all
-  
-
-example : FoldSafe .add 2147483646 1 := by simp only [FoldSafe]; decide
 
 /-! ## 2. CCP's literal / algebraic rules -/
 
@@ -139,7 +128,7 @@ theorem ccp_rule_exact_partial (op : Op) (e1 e2 r : Operand) (ρ : Nat → Int)
               split at h
               · rename_i v hv
                 injection h with h; subst h
-                exact fold_exact_partial op v1 v2 v hv
+                exact fold_val_exact op v1 v2 v hv
               · simp at h
               · simp at h
             | var x => simp at h
@@ -239,20 +228,16 @@ theorem merge_sound_partial (outer inner op : Op) (x c1 c2 c : Int)
   case add =>
     split at h
     · rename_i hi; subst hi
-      simp only [chkM] at h; split at h
-      · injection h with h1 h2; subst h1; subst h2
-        simp only [evalNested, evalTarget, Option.bind]
-        congr 1; unfold wrap32; omega
-      · simp at h
+      injection h with h1 h2; subst h1; subst h2
+      simp only [evalNested, evalTarget, Option.bind]
+      congr 1; unfold wrap32; omega
     · simp at h
   case mul =>
     split at h
     · rename_i hi; subst hi
-      simp only [chkM] at h; split at h
-      · injection h with h1 h2; subst h1; subst h2
-        simp only [evalNested, evalTarget, Option.bind]
-        rw [wrap32_mul_left, Int.mul_assoc]
-      · simp at h
+      injection h with h1 h2; subst h1; subst h2
+      simp only [evalNested, evalTarget, Option.bind]
+      rw [wrap32_mul_left, wrap32_mul_right, Int.mul_assoc]
     · simp at h
   case lt | le | gt | ge =>
     split at h
@@ -328,15 +313,117 @@ theorem strength_sound (L : ObsLoop) (k : Nat) :
 example : (addT 1 (mulT 3 4) < addT 1 (mulT 3 5)) := by decide
 example : iterW (addT 2 (mulT 3 0)) (1 * 3) 4 = 14 := by decide
 
-/-! ## 6. Trip-count closed forms (`loop_algebraic_optimization.rs:10-58`) -/
+/-! ### Loop level: what `loop_optimizations` makes of the observed counting loop -/
 
-/-- `tripcount_exact` under the side condition that the final counter value does not wrap. -/
-theorem tripcount_exact_partial (g : Guard) (i0 step bound n : Int)
+/-- FULL STRENGTH: when IV elimination does not apply (two derived statements hang off `i`), what
+`loop_optimizations` produces (strength reduction only) behaves exactly like the original loop,
+for every loop of the family and every fuel. -/
+theorem loopopt_strength_path_sound (L : ObsLoop) (h : L.singleDerived = false) (fuel : Nat) :
+    runOptimised L fuel = runOriginal L fuel := by
+  unfold runOptimised runOriginal mergeMul
+  simp only [h]
+  have := runStrength_eq L fuel 0 0 []
+  simp only [iterW] at this
+  simp [this]
+
+/-- `ivelim_sound`, loop level, under the explicit condition that the new guard decides like the
+old one at every iteration up to the exit (`n` = the original loop's trip count). -/
+theorem ivelim_sound_partial (L : ObsLoop) (n : Nat) (hs : L.singleDerived = true)
+    (hbr : BreaksAt L.g L.i0 L.step L.bound n)
+    (hg : ∀ k, k ≤ n →
+      decide (iterW (addT L.c (mulT L.m L.i0)) (wrap32 (L.step * L.m)) k < addT L.c (mulT L.m L.bound))
+        = L.g.holds (iterW L.i0 L.step k) L.bound)
+    (fuel : Nat) : runOptimised L fuel = runOriginal L fuel := by
+  unfold runOptimised runOriginal mergeMul
+  simp only [hs, if_true]
+  have := runElim_eq L n hbr hg fuel 0 (by omega) 0 []
+  simp only [iterW] at this
+  rw [this]
+
+/-- … and that condition holds for a `<` guard, a positive multiplier and no overflow of
+`m*i + c` along the run (composition with `ivelim_guard_partial`). -/
+theorem ivelim_sound_noovf (L : ObsLoop) (n : Nat) (hs : L.singleDerived = true)
+    (hgd : L.g = .lt) (hm : 0 < L.m)
+    (hbr : BreaksAt L.g L.i0 L.step L.bound n)
+    (hov : ∀ k, k ≤ n → InRange (L.c + L.m * iterW L.i0 L.step k))
+    (hb : InRange (L.c + L.m * L.bound))
+    (fuel : Nat) : runOptimised L fuel = runOriginal L fuel := by
+  apply ivelim_sound_partial L n hs hbr _ fuel
+  intro k hk
+  rw [strength_iter, derivedOf_eq, addT_mulT_eq, wrap32_of_inRange (hov k hk), wrap32_of_inRange hb, hgd]
+  simp only [Guard.holds]
+  apply decide_eq_decide.mpr
+  constructor
+  · intro h
+    have : L.m * iterW L.i0 L.step k < L.m * L.bound := by omega
+    exact (Int.mul_lt_mul_left hm).mp this
+  · intro h
+    have : L.m * iterW L.i0 L.step k < L.m * L.bound := (Int.mul_lt_mul_left hm).mpr h
+    omega
+example : ({ g := .lt, i0 := 0, step := 1, bound := 5, m := 3, c := 2 } : ObsLoop).singleDerived = false := by decide
+example : runOptimised { g := .lt, i0 := 0, step := 1, bound := 5, m := 2, c := 0 } 20
+        = runOriginal { g := .lt, i0 := 0, step := 1, bound := 5, m := 2, c := 0 } 20 := by decide
+
+/-! ### Strength reduction in loops with several basic induction variables
+(`loop_strength_reduction.rs:38-69`; the class of the seeded fault "initial value from the wrong
+basic induction variable") -/
+
+/-- FULL STRENGTH: in a loop with any number of basic induction variables, the loop variable that
+strength reduction introduces for a derived variable `d = m * v_base + c` has, at every iteration,
+exactly the value the original body computes — provided its initial value is taken from the
+ASSOCIATED base variable. -/
+theorem strength_multi_sound (ivs : List (Int × Int)) (d : Derived) (k : Nat)
+    (hb : d.base < ivs.length) : srVal ivs d k = derivedVal ivs d k := by
+  unfold srVal srParams derivedVal ivVal
+  have : ivs[d.base]? = some ivs[d.base] := List.getElem?_eq_getElem hb
+  rw [this]
+  simp only [Option.map]
+  exact strength_iter _ _ _ _ _
+
+/-- FULL STRENGTH, whole transform: the strength-reduced loop prints exactly the trace of the
+original loop, for every loop of the family, every fuel. -/
+theorem strength_multi_trace (L : MultiLoop) (hb : ∀ d ∈ L.ds, d.base < L.ivs.length)
+    (fuel k : Nat) (acc : List Int) :
+    runMulti (srVal L.ivs) L fuel k acc = runMulti (derivedVal L.ivs) L fuel k acc := by
+  induction fuel generalizing k acc with
+  | zero => rfl
+  | succ fuel ih =>
+    simp only [runMulti]
+    split
+    · have : L.ds.map (fun d => srVal L.ivs d k) = L.ds.map (fun d => derivedVal L.ivs d k) := by
+        apply List.map_congr_left
+        intro d hd
+        exact strength_multi_sound L.ivs d k (hb d hd)
+      rw [this, ih]
+    · rfl
+
+/-- The fault class "initial value taken from another basic induction variable" is refuted by the
+model: with two counters starting at different values the traces differ. -/
+theorem strength_wrong_base_counterexample :
+    let ivs : List (Int × Int) := [(0, 1), (7, 5)]
+    let d : Derived := { base := 1, m := 3, c := 1 }
+    derivedVal ivs d 0 = 22 ∧ iterW (addT d.c (mulT d.m 0)) (wrap32 (5 * d.m)) 0 = 1 := by
+  decide
+example : runMultiOpt { ivs := [(0, 1), (7, 5)], gi := 0, g := .lt, bound := 4, ds := [{ base := 1, m := 3, c := 1 }] } 10
+        = some [0, 22, 1, 37, 2, 52, 3, 67] := by decide
+
+/-! ## 6. Trip-count closed forms (`loop_algebraic_optimization.rs:10-58`)
+
+History: before `fix:` 0934671 the closed form was computed in unchecked 32-bit arithmetic and
+never asked whether the counter wraps; the full statement was false
+(`tripcount_exact_counterexample`: `while (i < MAX) i += 2` from 0 never terminates on the target,
+the closed form said 2^30; `tripcount_panics_counterexample`: `bound + 1` overflowed) and only
+`tripcount_exact_partial` (side condition: final counter value in range) held. The fixed code
+checks that side condition itself, so the full-strength statement is now a theorem. -/
+
+/-- FULL STRENGTH: for all four guard kinds, every initial value, stride and bound: if the closed
+form answers `n`, the target's loop `while (i G bound) i += step` leaves after exactly `n`
+iterations. -/
+theorem tripcount_exact (g : Guard) (i0 step bound n : Int)
     (hi : InRange i0) (hb : InRange bound)
-    (h : tripCount g i0 step bound = .count n)
-    (hs : InRange (i0 + step * n)) :
+    (h : tripCount g i0 step bound = .count n) :
     BreaksAt g i0 step bound n.toNat := by
-  obtain ⟨h0, h1, h2⟩ := tripCount_ideal g i0 step bound n h
+  obtain ⟨h0, h1, h2, hs⟩ := tripCount_ideal g i0 step bound n hi h
   constructor
   · intro k hk
     have hk' : (k : Int) < n := by omega
@@ -349,27 +436,21 @@ theorem tripcount_exact_partial (g : Guard) (i0 step bound n : Int)
     have : ((n.toNat : Nat) : Int) = n := Int.toNat_of_nonneg h0
     rw [this, wrap32_of_inRange hs]; exact h2
 
-/-- The final counter value the pass materialises (`initial + increment * n`,
-loop_algebraic_optimization.rs:90-91) is the value the loop leaves in the counter. -/
-theorem tripcount_final_value_partial (i0 step n : Int) (hi : InRange i0) (h0 : 0 ≤ n)
-    (hs : InRange (i0 + step * n)) : iterW i0 step n.toNat = i0 + step * n := by
+/-- FULL STRENGTH: the final counter value the pass materialises (`initial + increment * n`,
+loop_algebraic_optimization.rs) is the value the loop leaves in the counter. -/
+theorem tripcount_final_value (g : Guard) (i0 step bound n : Int) (hi : InRange i0)
+    (h : tripCount g i0 step bound = .count n) : iterW i0 step n.toNat = i0 + step * n := by
+  obtain ⟨h0, _, _, hs⟩ := tripCount_ideal g i0 step bound n hi h
   rw [iterW_eq i0 step hi, Int.toNat_of_nonneg h0, wrap32_of_inRange hs]
-example : iterW 0 3 4 = 12 := by decide
 
-/-- FULL STATEMENT (false): whenever the closed form answers `n`, the target's loop leaves after
-exactly `n` iterations. Witness: `while (i < MAX) i += 2` from 0 never terminates on the target
-(the counter wraps from `MAX-1` to `MIN`), the closed form says 1073741824 (C02-F5). -/
-theorem tripcount_exact_counterexample :
-    tripCount .lt 0 2 2147483647 = .count 1073741824 ∧
-    ¬ BreaksAt .lt 0 2 2147483647 1073741824 := by
-  refine ⟨by decide, fun h => ?_⟩
-  have := h.2
-  rw [iterW_eq _ _ (by decide)] at this
-  revert this; decide
+/-- The former witnesses are now declined by the closed form. -/
+theorem tripcount_declines_wrapping_loops :
+    tripCount .lt 0 2 2147483647 = .unknown ∧ tripCount .le 0 1 2147483647 = .unknown ∧
+    tripCount .ge 7 1 (-2147483647) = .unknown := by decide
 
-/-- Second witness: evaluating the closed form itself overflows (`bound + 1`). -/
-theorem tripcount_panics_counterexample : tripCount .le 0 1 2147483647 = .panic := by decide
 example : tripCount .ge 9 (-2) 0 = .count 5 := by decide
-example : BreaksAt .lt 0 3 10 4 := tripcount_exact_partial .lt 0 3 10 4 (by decide) (by decide) (by decide) (by decide)
+example : tripCount .lt 0 2 2147483646 = .count 1073741823 := by decide
+example : BreaksAt .lt 0 3 10 4 := tripcount_exact .lt 0 3 10 4 (by decide) (by decide) (by decide)
+example : iterW 0 3 4 = 12 := by decide
 
 end SamVerif.Opt
